@@ -203,6 +203,31 @@ def masked_shape(src, vals):
     return hashlib.sha1(ast.dump(fn).encode()).hexdigest()[:16]
 
 
+def masked_config_shapes(src):
+    """add_route and route_prefix_context with the translated fragments cut out (harness/c01/translate.py FRAGS)"""
+    import hashlib
+    from harness.c01 import translate
+    m = F.Module(src, 'pyramid/config/routes.py')
+    out = {}
+    for spec in translate.FRAGS:
+        fn = m.find(spec['qual'])
+        if fn is None:
+            raise ValueError('%s not found' % spec['qual'])
+        cut = spec['select'](fn)
+        ids = {id(x) for x in cut}
+
+        class Cut(ast.NodeTransformer):
+            def generic_visit(self, node):
+                for field in ('body', 'orelse', 'finalbody'):
+                    v = getattr(node, field, None)
+                    if isinstance(v, list):
+                        setattr(node, field, [ast.Pass() if id(x) in ids else x for x in v])
+                return super().generic_visit(node)
+        Cut().visit(fn)
+        out['pyramid/config/routes.py:%s(fragment cut)' % spec['qual']] = F.shape(fn)
+    return out
+
+
 def facts(src):
     import json
     problems = []
@@ -223,6 +248,16 @@ def facts(src):
                             'masked): the hand-written model follows the previous text of this function' % (want, got))
     except Exception as e:
         problems.append('masked shape pin of _compile_route could not be computed: %r' % e)
+    try:
+        with open(os.path.join(HERE, 'pins_masked.json')) as f:
+            wants = json.load(f)
+        for k, got in masked_config_shapes(src).items():
+            summary[k] = got
+            if got != wants.get(k):
+                problems.append('shape pin %s changed (%s -> %s): the hand-written model follows the previous text of '
+                                'this function' % (k, wants.get(k), got))
+    except Exception as e:
+        problems.append('masked shape pins of config/routes.py could not be computed: %r' % e)
     coq = F.HEADER
     for k in sorted(vals):
         coq += 'Definition %s : text := %s.  (* %r *)\n' % (k, F.coq_text(vals[k]), vals[k].replace('*)', '* )').replace('(*', '( *'))
